@@ -1,6 +1,6 @@
 //! C12 — enumerated codes map to the named values, injectively, unknowns preserved.
 
-use crate::adapter::{Config, STD};
+use crate::adapter::{configs, Config, STD};
 use crate::engine::{Ctx, Input, Rec, Verdict};
 use crate::outcome::PRes;
 use crate::props::payload::{check_bytes, check_input};
@@ -100,7 +100,9 @@ pub fn run(ctx: &mut Ctx) {
     ctx.rule = "exhaustive: every code (all 2^width; 256 for ship type) of every enumerated field in every layout that carries it, with zero, all-one and random neighbours, compared with tables typed in from M.1371-5 (undefined codes absent, unassigned codes rendered with their number), plus injectivity computed on the observed values, plus ShipType::parse / u8::from for all 256 codes. Every (field, code) pair is non-trivial; distinct by (payload bytes).".into();
     ctx.replay_regressions(check);
     for code in 0..=255u8 {
-        ctx.sweep_case("shiptype-conversions", &STD, &Input::ShipCode { code }, check);
+        for cfg in configs() {
+            ctx.sweep_case("shiptype-conversions", cfg, &Input::ShipCode { code }, check);
+        }
     }
     ctx.mark_exhaustive("shiptype-conversions", "all 256 codes through ShipType::parse and u8::from");
     let mut mix = Mix::new(ctx.seed, 12);
@@ -122,7 +124,9 @@ pub fn run(ctx: &mut Ctx) {
                     if ctx.sub_failed("enum-field-sweep") {
                         return;
                     }
-                    ctx.sweep_case("enum-field-sweep", &STD, &Input::Payload { bytes: b.clone() }, check);
+                    for cfg in configs() {
+                        ctx.sweep_case("enum-field-sweep", cfg, &Input::Payload { bytes: b.clone() }, check);
+                    }
                 }
             }
         }
